@@ -89,7 +89,11 @@ pub fn drive(t: &mut Tracer, r: &mut Rng, n: usize) {
                 if ty != "date" && ty != "yearmonth" { let d = r.range(0, 4) as u64; time_fields(r, &mut m, d); }
                 let mut args = json!({"p": Value::Object(m)});
                 ovf(r, &mut args);
-                if ty == "zoned" { args["tz"] = json!(*r.pick(&["+00:00", "+00:00", "+05:30", "-08:00", "+14:00"])); }
+                if ty == "zoned" {
+                    args["tz"] = json!(*r.pick(&["+00:00", "+00:00", "+05:30", "-08:00", "+14:00"]));
+                    // an explicit offset (minutes) next to the zone: the zone's own, or another one (the default offset option is reject)
+                    if r.chance(1, 3) { args["xoff"] = json!(*r.pick(&[0i64, 0, 330, -480, 840, 60][..])); }
+                }
                 t.call(&format!("{}.from_partial", name), args)
             };
             if out["kind"] == "ok" { cur = Some(out["val"].clone()); break; }
